@@ -19,9 +19,11 @@ import (
 	"strings"
 	"time"
 
+	"github.com/beevik/etree"
 	"github.com/crewjam/saml"
 	"github.com/crewjam/saml/xmlenc"
 	"github.com/golang-jwt/jwt/v4"
+	dsig "github.com/russellhaering/goxmldsig"
 	"golang.org/x/net/html"
 )
 
@@ -37,6 +39,7 @@ func (k KeyPair) CertB64() string { return base64.StdEncoding.EncodeToString(k.C
 
 var rsaKeys []KeyPair // rsa0..rsa4
 var ecKeys []KeyPair  // ec0..ec1
+var rsaOld KeyPair    // a certificate that expired in 1999 (before the simulated clock starts): an IdP's previous key, still listed
 
 func fixturesDir() string {
 	if d := os.Getenv("VERIF_FIXTURES"); d != "" {
@@ -77,6 +80,15 @@ func loadFixtures() {
 	for i := 0; i < 2; i++ {
 		ecKeys = append(ecKeys, loadKey(fmt.Sprintf("ec%d", i)))
 	}
+	rsaOld = loadKey("rsaold")
+}
+
+// passVerifier is an application-supplied saml.SignatureVerifier that does what the library would do itself.
+type passVerifier struct{}
+
+func (passVerifier) VerifySignature(ctx *dsig.ValidationContext, el *etree.Element) error {
+	_, err := ctx.Validate(el)
+	return err
 }
 
 // ---------------------------------------------------------------- library globals (the seams)
